@@ -309,6 +309,8 @@ def run (ctx):
              "%s has the request in `ofp` but calls %s with ofp=%s: an error raised while the helper works (bad action, bad port) is sent with xid 0 and without the request's bytes - "
              "the controller cannot match it to its request" % (m_.name, cal.name, norm(a) if a is not None else 'omitted (default None)'), (swmod, c), 'D3')
   ctx.floor('request hand-over sites', n_thr, 2)
+  # a flow-mod that is acceptable gets no error: replacing an entry in a full table is acceptable
+  switchq.capacity_after_removal(ctx, repo, sw, 'D2')
   # ---- D4 synchronous ------------------------------------------------------
   for f in scan + [sw.find_method('rx_message'), se, sw.find_method('send')]:
     if f is None: continue
